@@ -15,8 +15,11 @@ from checks import scenarios as S
 
 PROP = "C15"
 LEVEL = "proof"
-THEOREMS = {"Proofs.Props.C15": ["MsPack.Chm.C15_compare_refl", "MsPack.Chm.C15_compare_ascii_case"]}
-ASSUMPTIONS = ["correctness of the binary search over quick-reference entries and of the index descent is not a theorem yet: covered by exhaustive lookups per generated directory with model agreement",
+THEOREMS = {"Proofs.Props.C15": ["MsPack.Chm.C15_compare_refl", "MsPack.Chm.C15_compare_ascii_case"],
+            "Proofs.Props.C15Find": ["MsPack.Chm.C15_fastfind_roundtrip", "MsPack.Chm.C15_fastfind_roundtrip_ascii", "MsPack.Chm.C15_fastfind_anycase_ascii",
+                                     "MsPack.Chm.C15_fastfind_found", "MsPack.Chm.C15_fastfind_notfound"]}
+ASSUMPTIONS = ["C15_fastfind_roundtrip covers directories written by the specification writer (PMGL chain without index chunks, chunks whose quick-reference area is not consulted: `noQuickrefs`), any cache state, any earlier error: every listed file is found with its section/offset/length, every name compare() tells apart from all entries is reported not found; "
+               "the multi-group binary search over quick-reference entries and the index (PMGI) descent are not theorems: covered by exhaustive lookups per generated directory with model agreement",
                "towlower is the C locale's (ASCII only) in harness and model"]
 RULE = ("chm.dir: generated CHMs (1-400 entries, chunk sizes 64..8192, densities 0-4, 0-3 index levels); lookups = every listed name, an ASCII case variant of each, and absent neighbours "
         "(last byte +/-1, a byte appended, a byte dropped), in shuffled order, on handles from open() and fast_open(); non-trivial = a directory with at least 2 chunks; distinct by file bytes")
